@@ -23,6 +23,7 @@ from __future__ import annotations
 import ast
 from dataclasses import dataclass, field
 
+from core.guards import FALSE as FALSE_F
 from core.guards import Formula, atom, atoms_of, conds_formula, f_and, f_not, f_or, implies, show, to_formula
 from core.inline_stmt import Inliner
 from core.loader import AnalysisError, FuncInfo, Repo, ancestors, norm, own_nodes, parent, set_parents
@@ -171,13 +172,26 @@ class ViewInfo(FuncInfo):
 def _allow(caller: FuncInfo, callee: FuncInfo) -> bool:
     """What is substituted into the view: module-level helpers. Methods (graph accessors, filter properties) and the public
     search functions are the vocabulary of the rules and stay calls."""
-    if callee.cls is not None or callee.outer is not None:
+    if callee.outer is not None:
+        return False
+    if callee.cls is not None and not _helper_class(callee.cls):
         return False
     if callee.module.name == SEARCHES and not callee.name.startswith("_"):
         return False
     if _self_recursive(callee):
         return False  # one unrolled level says nothing; _recursion_to_worklists rewrites the walk as a whole
     return True
+
+
+_VOCABULARY_CLASSES = {"AbstractGraph", "ModuleFilter", "Module", "ModuleGroup"}
+
+
+def _helper_class(ci) -> bool:
+    """A class that only organises a search (a walk object owning the worklist, a record): private, or defined next to the
+    searches - never the graph or the module filters, whose methods are the vocabulary of the rules."""
+    if ci.name in _VOCABULARY_CLASSES or any(norm(b).split(".")[-1] in _VOCABULARY_CLASSES | {"ABC", "Protocol"} for b in ci.base_exprs):
+        return False
+    return ci.name.startswith("_") or ci.module.name == SEARCHES
 
 
 def _self_calls(f: FuncInfo) -> list[ast.Call]:
@@ -318,6 +332,124 @@ class _FoldBools(ast.NodeTransformer):
         return n
 
 
+def _record_fields(repo: Repo, mod, func: ast.AST) -> tuple[list[str], bool] | None:
+    """(field names in positional order, the record can be unpacked like a tuple) for a call target that is a plain record class of
+    the library: a `typing.NamedTuple` class, a `collections.namedtuple(..)` constant, or a dataclass without hand-written
+    construction hooks."""
+    if not isinstance(func, (ast.Name, ast.Attribute)):
+        return None
+    fq = repo.resolve_name(mod, func)
+    ci = repo.classes.get(fq) if fq else None
+    if ci is None and isinstance(func, ast.Name):
+        ci = mod.classes.get(func.id)
+    if ci is not None:
+        hooks = {"__init__", "__new__", "__post_init__", "__iter__", "__getattr__", "__getattribute__", "__getitem__"}
+        if hooks & set(ci.methods):
+            return None
+        is_nt = any(norm(b).split(".")[-1] == "NamedTuple" for b in ci.base_exprs)
+        if is_nt and len(ci.base_exprs) == 1:
+            return list(ci.ann_attrs), True
+        if ci.is_dataclass and not ci.base_exprs:
+            if any(isinstance(d, ast.Call) and any(k.arg in ("init", "kw_only") for k in d.keywords) for d in ci.node.decorator_list):
+                return None
+            return list(ci.ann_attrs), False
+        return None
+    # X = namedtuple("X", "a b") / namedtuple("X", ["a", "b"])
+    if isinstance(func, ast.Name):
+        val = mod.constants.get(func.id)
+        if isinstance(val, ast.Call) and norm(val.func).split(".")[-1] == "namedtuple" and len(val.args) >= 2 and not val.keywords:
+            spec = val.args[1]
+            if isinstance(spec, ast.Constant) and isinstance(spec.value, str):
+                return spec.value.replace(",", " ").split(), True
+            if isinstance(spec, (ast.List, ast.Tuple)) and all(isinstance(x, ast.Constant) and isinstance(x.value, str) for x in spec.elts):
+                return [x.value for x in spec.elts], True
+    return None
+
+
+def _unpack_records(repo: Repo, view: FuncInfo) -> None:
+    """Records that only carry values from a producer to a consumer are taken apart (what a generator's
+    `yield Stop(module, imported)` and its consumer's `for importer, importees in walk(..)` / `stop.module` become once the
+    generator is substituted):
+
+        a, b = Stop(x, y)          ->  a, b = (x, y)
+        s = Stop(x, y) .. s.module ->  s__module = x; s__imported = y .. s__module     (every read of s is a field read)"""
+    fn = view.node
+    set_parents(fn)
+    taken = {n.id for n in ast.walk(fn) if isinstance(n, ast.Name)}
+
+    def fields_of(call: ast.AST) -> tuple[list[str], bool, list[ast.expr]] | None:
+        if not (isinstance(call, ast.Call) and not any(isinstance(a, ast.Starred) for a in call.args) and all(k.arg for k in call.keywords)):
+            return None
+        src = getattr(call, "_src", None)
+        mod = src[0].module if src is not None else view.module
+        got = _record_fields(repo, mod, call.func)
+        if got is None:
+            return None
+        names, iterable = got
+        vals: dict[str, ast.expr] = dict(zip(names, call.args))
+        for k in call.keywords:
+            vals[k.arg] = k.value
+        if len(call.args) > len(names) or set(vals) != set(names):
+            return None  # defaults in play: not taken apart
+        return names, iterable, [vals[n] for n in names]
+
+    for blk in list(_blocks(fn)):
+        i = 0
+        while i < len(blk):
+            st = blk[i]
+            i += 1
+            if not (isinstance(st, ast.Assign) and len(st.targets) == 1):
+                continue
+            got = fields_of(st.value)
+            if got is None:
+                continue
+            names, iterable, vals = got
+            tgt = st.targets[0]
+            if isinstance(tgt, (ast.Tuple, ast.List)) and iterable and len(tgt.elts) == len(vals) and not any(isinstance(t, ast.Starred) for t in tgt.elts):
+                st.value = ast.copy_location(ast.Tuple(elts=vals, ctx=ast.Load()), st.value)
+                continue
+            if not isinstance(tgt, ast.Name):
+                continue
+            s_ = tgt.id
+            if sum(1 for n in ast.walk(fn) if isinstance(n, ast.Name) and n.id == s_ and isinstance(n.ctx, (ast.Store, ast.Del))) != 1:
+                continue
+            reads = [n for n in ast.walk(fn) if isinstance(n, ast.Name) and n.id == s_ and isinstance(n.ctx, ast.Load)]
+            proj: list[tuple[ast.AST, int]] = []
+            ok = True
+            for r in reads:
+                par = parent(r)
+                if isinstance(par, ast.Attribute) and par.value is r and par.attr in names and isinstance(par.ctx, ast.Load):
+                    proj.append((par, names.index(par.attr)))
+                elif iterable and isinstance(par, ast.Subscript) and par.value is r and isinstance(par.slice, ast.Constant) and isinstance(par.slice.value, int) and -len(names) <= par.slice.value < len(names) and isinstance(par.ctx, ast.Load):
+                    proj.append((par, par.slice.value % len(names)))
+                else:
+                    ok = False
+                    break
+            if not ok or not proj:
+                continue
+            locs = []
+            for n_ in names:
+                new = f"{s_}__{n_}"
+                while new in taken:
+                    new += "_"
+                taken.add(new)
+                locs.append(new)
+            for node_, k in proj:
+                par = parent(node_)
+                ref = ast.copy_location(ast.Name(id=locs[k], ctx=ast.Load()), node_)
+                for fld, val in ast.iter_fields(par):
+                    if val is node_:
+                        setattr(par, fld, ref)
+                    elif isinstance(val, list):
+                        for j, x in enumerate(val):
+                            if x is node_:
+                                val[j] = ref
+            new_stmts = [ast.copy_location(ast.Assign(targets=[ast.Name(id=l_, ctx=ast.Store())], value=v_), st) for l_, v_ in zip(locs, vals)]
+            blk[i - 1:i] = new_stmts
+            i += len(new_stmts) - 1
+            set_parents(fn)
+
+
 def _fold_constants(fn: ast.AST) -> None:
     # only when a literal flag is in play: `while True:` worklists and the like stay as written
     if not any(isinstance(x, (ast.If, ast.IfExp)) and _bool_const(x.test) is not None or (isinstance(x, ast.BoolOp) and any(_bool_const(v_) is not None for v_ in x.values)) for x in ast.walk(fn)):
@@ -363,7 +495,14 @@ def _propagate_copies(fn: ast.AST, params: set[str]) -> None:
                 if any(isinstance(a, (ast.ExceptHandler)) and a.name in (x, y) for a in ast.walk(fn)) or any(isinstance(a, (ast.Global, ast.Nonlocal)) for a in ast.walk(fn)):
                     continue
                 here = pos[id(st.value)]
-                reads = [n for n in names if n.id == x and isinstance(n.ctx, ast.Load)]
+
+                def shadowed(n: ast.Name, name: str) -> bool:
+                    """the name is a parameter of an enclosing lambda: another variable"""
+                    return any(isinstance(a, ast.Lambda) and any(p_.arg == name for p_ in [*a.args.posonlyargs, *a.args.args, *a.args.kwonlyargs]) for a in ancestors(n))
+
+                if any(n.id == y and shadowed(n, y) for n in names):
+                    continue  # renaming into the lambda's own name would capture
+                reads = [n for n in names if n.id == x and isinstance(n.ctx, ast.Load) and not shadowed(n, x)]
                 if not reads or any(pos[id(n)] < here for n in reads):
                     continue
                 if any(n.id == y and isinstance(n.ctx, (ast.Store, ast.Del)) and pos[id(n)] > here for n in names):
@@ -683,11 +822,301 @@ def _hoist_helper_calls(repo: Repo, view: FuncInfo) -> bool:
     return changed
 
 
-def _inline_generator_loops(repo: Repo, view: FuncInfo) -> bool:
-    """`for v in gen(args): BODY` where `gen` is a small generator helper whose `yield e` statements end their loop iteration:
-    the helper's loops with `v = e; BODY` in place of each yield."""
+def _local_objects(repo: Repo, view: FuncInfo) -> dict:
+    """x -> ClassInfo for locals bound exactly once, by `x = C(..)` with C a helper class (a walk object, a record with methods)."""
+    fn = view.node
+    stores: dict[str, int] = {}
+    for n in ast.walk(fn):
+        if isinstance(n, ast.Name) and isinstance(n.ctx, (ast.Store, ast.Del)):
+            stores[n.id] = stores.get(n.id, 0) + 1
+    out: dict = {}
+    for n in ast.walk(fn):
+        tgt = val = None
+        if isinstance(n, ast.Assign) and len(n.targets) == 1 and isinstance(n.targets[0], ast.Name):
+            tgt, val = n.targets[0].id, n.value
+        elif isinstance(n, ast.AnnAssign) and isinstance(n.target, ast.Name) and n.value is not None:
+            tgt, val = n.target.id, n.value
+        if tgt is None or stores.get(tgt) != 1 or tgt in view.param_names or not isinstance(val, ast.Call):
+            continue
+        ci = _class_of_call(repo, view, val)
+        if ci is not None and _helper_class(ci):
+            out[tgt] = ci
+    known = view.__dict__.get("objects") or {}
+    for k, v_ in known.items():
+        out.setdefault(k, v_)
+    return out
+
+
+def _class_of_call(repo: Repo, view: FuncInfo, call: ast.Call):
+    if not isinstance(call.func, (ast.Name, ast.Attribute)):
+        return None
+    src = getattr(call, "_src", None)
+    mod = src[0].module if src is not None else view.module
+    fq = repo.resolve_name(mod, call.func)
+    ci = repo.classes.get(fq) if fq else None
+    if ci is None and isinstance(call.func, ast.Name):
+        ci = mod.classes.get(call.func.id)
+    return ci
+
+
+def _generator_target(repo: Repo, view: FuncInfo, it: ast.AST, objects: dict):
+    """(generator FuncInfo, call whose arguments bind its parameters) for an iterated expression: `gen(..)` of a module-level generator
+    helper, a local walk object `x` whose class has a generator `__iter__`, `iter(x)`, or a generator method `x.edges(..)`."""
+    if isinstance(it, ast.Call) and isinstance(it.func, ast.Name) and it.func.id == "iter" and len(it.args) == 1 and not it.keywords:
+        it = it.args[0]
+    if isinstance(it, ast.Name) and it.id in objects:
+        f = objects[it.id].methods.get("__iter__")
+        if f is not None and _is_generator(f) and not (f.node.args.vararg or f.node.args.kwarg):
+            return f, ast.copy_location(ast.Call(func=ast.Attribute(value=it, attr="__iter__", ctx=ast.Load()), args=[ast.copy_location(ast.Name(id=it.id, ctx=ast.Load()), it)], keywords=[]), it)
+        return None
+    if isinstance(it, ast.Call) and isinstance(it.func, ast.Attribute) and isinstance(it.func.value, ast.Name) and it.func.value.id in objects:
+        f = objects[it.func.value.id].methods.get(it.func.attr)
+        if f is not None and _is_generator(f) and not f.is_staticmethod and not f.is_classmethod and not (f.node.args.vararg or f.node.args.kwarg):
+            recv = ast.copy_location(ast.Name(id=it.func.value.id, ctx=ast.Load()), it)
+            return f, ast.copy_location(ast.Call(func=it.func, args=[recv, *it.args], keywords=list(it.keywords)), it)
+        return None
+    if isinstance(it, ast.Call):
+        f = _helper_of(repo, view, it)
+        if f is not None and _is_generator(f):
+            return f, it
+    return None
+
+
+def _inline_object_methods(repo: Repo, view: FuncInfo) -> bool:
+    """Calls of plain methods on a local helper object: `x.m(a)` as a statement -> the method's body with `self` = x;
+    `x.m(a)` inside an expression, where the method is a single `return <expr>` -> that expression; `x = C(a, b)` -> the body of
+    `C.__init__` with `self` = x (the attributes stay `x.attr`; _scalarise_objects turns them into locals at the end)."""
+    objects = _local_objects(repo, view)
+    view.__dict__["objects"] = objects
+    if not objects:
+        return False
     changed = False
     taken = {n.id for n in ast.walk(view.node) if isinstance(n, ast.Name)}
+
+    def plain(f: FuncInfo | None) -> bool:
+        if f is None or isinstance(f.node, ast.Lambda) or _is_generator(f) or f.is_staticmethod or f.is_classmethod or f.is_property:
+            return False
+        a = f.node.args
+        if a.vararg or a.kwarg or not (a.posonlyargs or a.args):
+            return False
+        return not any(isinstance(n, (ast.FunctionDef, ast.AsyncFunctionDef, ast.ClassDef, ast.Global, ast.Nonlocal, ast.Try, ast.With, ast.Await)) for n in own_nodes(f.node))
+
+    def bind(f: FuncInfo, recv: str, call: ast.Call) -> dict[str, ast.expr] | None:
+        a = f.node.args
+        pos = [p_.arg for p_ in [*a.posonlyargs, *a.args]]
+        if any(isinstance(x, ast.Starred) for x in call.args) or any(k.arg is None for k in call.keywords) or len(call.args) > len(pos) - 1:
+            return None
+        b: dict[str, ast.expr] = {pos[0]: ast.Name(id=recv, ctx=ast.Load())}
+        for p_, x in zip(pos[1:], call.args):
+            b[p_] = x
+        for k in call.keywords:
+            b[k.arg] = k.value
+        for p_, d in zip(pos[len(pos) - len(a.defaults):], a.defaults):
+            b.setdefault(p_, _clone_src(d, f))
+        for p_, d in zip(a.kwonlyargs, a.kw_defaults):
+            if d is not None:
+                b.setdefault(p_.arg, _clone_src(d, f))
+        names = f.param_names
+        if set(b) != set(names):
+            return None
+        return b
+
+    def expand_stmt(f: FuncInfo, recv: str, call: ast.Call, at: ast.stmt) -> list[ast.stmt] | None:
+        """body of a method called for its effect (returns nothing, or the value is dropped by the caller)"""
+        b = bind(f, recv, call)
+        if b is None:
+            return None
+        body_src = [s_ for s_ in f.node.body if not (isinstance(s_, ast.Expr) and isinstance(s_.value, ast.Constant))]
+        # `return` only as the last statement, and without a value worth keeping
+        rets = [n for n in own_nodes(f.node) if isinstance(n, ast.Return)]
+        if any(r is not f.node.body[-1] for r in rets) or any(r.value is not None and not isinstance(r.value, ast.Constant) for r in rets):
+            return None
+        body = [_clone_src(s_, f) for s_ in body_src if not isinstance(s_, ast.Return)]
+        stored = {n.id for s_ in body for n in ast.walk(s_) if isinstance(n, ast.Name) and isinstance(n.ctx, ast.Store)}
+        prefix: list[ast.stmt] = []
+        ren: dict[str, str] = {}
+        for p_ in f.param_names:
+            val = b[p_]
+            if isinstance(val, ast.Name) and p_ not in stored:
+                ren[p_] = val.id
+            else:
+                new = p_ if p_ not in taken else f"{p_}__{f.name.strip('_')}"
+                while new in taken and new != p_:
+                    new += "_"
+                taken.add(new)
+                ren[p_] = new
+                prefix.append(ast.copy_location(ast.Assign(targets=[ast.Name(id=new, ctx=ast.Store())], value=val), at))
+        for l_ in sorted(stored - set(f.param_names)):
+            if l_ in taken:
+                new = f"{l_}__{f.name.strip('_')}"
+                while new in taken:
+                    new += "_"
+                taken.add(new)
+                ren[l_] = new
+            else:
+                taken.add(l_)
+        for s_ in body:
+            for n in ast.walk(s_):
+                if isinstance(n, ast.Name) and n.id in ren:
+                    n.id = ren[n.id]
+        return prefix + body
+
+    class ExprMethods(ast.NodeTransformer):
+        """`x.m(a)` where m is `return <expr>`: the expression, arguments substituted (only simple arguments, evaluated once)."""
+
+        def visit_Lambda(self, n):  # noqa: N802
+            return n
+
+        def visit_Call(self, n: ast.Call):  # noqa: N802
+            nonlocal changed
+            self.generic_visit(n)
+            if not (isinstance(n.func, ast.Attribute) and isinstance(n.func.value, ast.Name) and n.func.value.id in objects):
+                return n
+            f = objects[n.func.value.id].methods.get(n.func.attr)
+            if not plain(f):
+                return n
+            body = [s_ for s_ in f.node.body if not (isinstance(s_, ast.Expr) and isinstance(s_.value, ast.Constant))]
+            if len(body) != 1 or not isinstance(body[0], ast.Return) or body[0].value is None:
+                return n
+            b = bind(f, n.func.value.id, n)
+            if b is None or not all(isinstance(x, (ast.Name, ast.Constant)) or (isinstance(x, ast.Attribute) and isinstance(x.value, ast.Name)) for x in b.values()):
+                return n
+            expr = _clone_src(body[0].value, f)
+
+            class Sub(ast.NodeTransformer):
+                def visit_Name(self, m_: ast.Name):  # noqa: N802
+                    if m_.id in b and isinstance(m_.ctx, ast.Load):
+                        return _clone(b[m_.id])
+                    return m_
+
+            changed = True
+            view.__dict__.setdefault("gen_inlined", []).append(f.fq)
+            return Sub().visit(expr)
+
+    def block(stmts: list[ast.stmt]) -> list[ast.stmt]:
+        nonlocal changed
+        out: list[ast.stmt] = []
+        for st in stmts:
+            for fld in ("body", "orelse", "finalbody"):
+                blk = getattr(st, fld, None)
+                if isinstance(blk, list) and blk and isinstance(blk[0], ast.stmt):
+                    setattr(st, fld, block(blk))
+            if isinstance(st, ast.Try):
+                for h in st.handlers:
+                    h.body = block(h.body)
+            # x.m(a) as a statement
+            if isinstance(st, ast.Expr) and isinstance(st.value, ast.Call) and isinstance(st.value.func, ast.Attribute) and isinstance(st.value.func.value, ast.Name) and st.value.func.value.id in objects:
+                f = objects[st.value.func.value.id].methods.get(st.value.func.attr)
+                if plain(f):
+                    got = expand_stmt(f, st.value.func.value.id, st.value, st)
+                    if got is not None:
+                        out += got or [ast.copy_location(ast.Pass(), st)]
+                        changed = True
+                        view.__dict__.setdefault("gen_inlined", []).append(f.fq)
+                        continue
+            # x = C(a, b)
+            tgt = st.targets[0] if isinstance(st, ast.Assign) and len(st.targets) == 1 else getattr(st, "target", None) if isinstance(st, ast.AnnAssign) else None
+            if isinstance(tgt, ast.Name) and tgt.id in objects and isinstance(getattr(st, "value", None), ast.Call) and _class_of_call(repo, view, st.value) is objects[tgt.id]:
+                ci = objects[tgt.id]
+                init = ci.methods.get("__init__")
+                got = None
+                if init is not None and plain(init):
+                    got = expand_stmt(init, tgt.id, st.value, st)
+                elif init is None:
+                    got = _record_constructor(repo, view, ci, tgt.id, st.value, st)
+                if got is not None:
+                    out += got or [ast.copy_location(ast.Pass(), st)]
+                    changed = True
+                    if init is not None:
+                        view.__dict__.setdefault("gen_inlined", []).append(init.fq)
+                    continue
+            out.append(st)
+        return out
+
+    view.node.body = block(view.node.body)
+    tr = ExprMethods()
+    view.node.body = [tr.visit(s_) for s_ in view.node.body]
+    return changed
+
+
+def _record_constructor(repo: Repo, view: FuncInfo, ci, recv: str, call: ast.Call, at: ast.stmt) -> list[ast.stmt] | None:
+    """`x = C(a, b)` for a dataclass / NamedTuple without `__init__`: `x.f1 = a; x.f2 = b` (defaults: constants and `field(default_factory=F)`)."""
+    src = getattr(call, "_src", None)
+    mod = src[0].module if src is not None else view.module
+    got = _record_fields(repo, mod, call.func)
+    if got is None:
+        return None
+    names, _iterable = got
+    if any(isinstance(a, ast.Starred) for a in call.args) or any(k.arg is None for k in call.keywords) or len(call.args) > len(names):
+        return None
+    vals: dict[str, ast.expr] = dict(zip(names, call.args))
+    for k in call.keywords:
+        vals[k.arg] = k.value
+    for n_ in names:
+        if n_ in vals:
+            continue
+        d = ci.class_attrs.get(n_)
+        if d is None:
+            return None
+        if isinstance(d, ast.Constant):
+            vals[n_] = d
+        elif isinstance(d, ast.Call) and norm(d.func).split(".")[-1] == "field" and len(d.keywords) == 1 and d.keywords[0].arg == "default_factory" and not d.args:
+            vals[n_] = ast.Call(func=d.keywords[0].value, args=[], keywords=[])
+        elif isinstance(d, ast.Call) and norm(d.func).split(".")[-1] == "field" and len(d.keywords) == 1 and d.keywords[0].arg == "default" and not d.args:
+            vals[n_] = d.keywords[0].value
+        else:
+            return None
+    if set(vals) != set(names):
+        return None
+    return [ast.copy_location(ast.Assign(targets=[ast.Attribute(value=ast.Name(id=recv, ctx=ast.Load()), attr=n_, ctx=ast.Store())], value=vals[n_]), at) for n_ in names]
+
+
+def _scalarise_objects(view: FuncInfo) -> None:
+    """A local helper object that was taken apart completely (constructor, methods and iteration substituted) is only read and
+    written attribute by attribute: `x.attr` becomes the local `x__attr`."""
+    fn = view.node
+    objects = view.__dict__.get("objects") or {}
+    if not objects:
+        return
+    set_parents(fn)
+    taken = {n.id for n in ast.walk(fn) if isinstance(n, ast.Name)}
+    for x in objects:
+        uses = [n for n in ast.walk(fn) if isinstance(n, ast.Name) and n.id == x]
+        if not uses or not all(isinstance(parent(n), ast.Attribute) and parent(n).value is n and isinstance(n.ctx, ast.Load) for n in uses):
+            continue  # the object is still constructed / passed on as a whole somewhere
+        names: dict[str, str] = {}
+        for n in uses:
+            att = parent(n)
+            if att.attr not in names:
+                new = f"{x}__{att.attr.strip('_')}"
+                while new in taken:
+                    new += "_"
+                taken.add(new)
+                names[att.attr] = new
+            ref = ast.copy_location(ast.Name(id=names[att.attr], ctx=att.ctx), att)
+            if hasattr(att, "_src"):
+                ref._src = att._src  # type: ignore[attr-defined]
+            par = parent(att)
+            for fld, val in ast.iter_fields(par):
+                if val is att:
+                    setattr(par, fld, ref)
+                elif isinstance(val, list):
+                    for j, y in enumerate(val):
+                        if y is att:
+                            val[j] = ref
+            if isinstance(par, ast.AnnAssign) and par.target is ref:
+                par.simple = 1
+        set_parents(fn)
+
+
+def _inline_generator_loops(repo: Repo, view: FuncInfo) -> bool:
+    """`for v in gen(args): BODY` where `gen` is a small generator helper whose `yield e` statements end their loop iteration:
+    the helper's loops with `v = e; BODY` in place of each yield.  The generator may also be a method of a local helper object
+    (`for t in walk:` with a generator `__iter__`, `for t in walk.edges():`)."""
+    changed = False
+    taken = {n.id for n in ast.walk(view.node) if isinstance(n, ast.Name)}
+    objects = _local_objects(repo, view)
+    view.__dict__["objects"] = objects
 
     def tail_yields(f: FuncInfo) -> tuple[bool, bool]:
         """(the helper has a shape that can be substituted, every yield ends its loop iteration)"""
@@ -830,15 +1259,19 @@ def _inline_generator_loops(repo: Repo, view: FuncInfo) -> bool:
             if isinstance(st, ast.Try):
                 for h in st.handlers:
                     h.body = block(h.body)
-            if isinstance(st, ast.For) and isinstance(st.iter, ast.Call):
-                f = _helper_of(repo, view, st.iter)
-                if f is not None and _is_generator(f):
+            if isinstance(st, ast.For):
+                tgt_ = _generator_target(repo, view, st.iter, objects)
+                if tgt_ is not None:
+                    f, call_ = tgt_
+                    orig_iter = st.iter
+                    st.iter = call_
                     got = expand(st, f)
                     if got is not None:
                         out += got
                         changed = True
                         view.__dict__.setdefault("gen_inlined", []).append(f.fq)
                         continue
+                    st.iter = orig_iter
             out.append(st)
         return out
 
@@ -1028,6 +1461,8 @@ def _generator_comprehensions_to_loops(repo: Repo, view: FuncInfo) -> bool:
     changed = False
     taken = {n.id for n in ast.walk(view.node) if isinstance(n, ast.Name)}
     counter = [0]
+    objects = _local_objects(repo, view)
+    view.__dict__["objects"] = objects
 
     def fresh() -> str:
         while True:
@@ -1046,9 +1481,8 @@ def _generator_comprehensions_to_loops(repo: Repo, view: FuncInfo) -> bool:
             kind = "set" if e.func.id in ("set", "frozenset") else "list"
             wrapper = e.func.id if e.func.id in ("frozenset", "tuple", "sorted") else None
             comp = e.args[0]
-            if isinstance(comp, ast.Call):
-                f = _helper_of(repo, view, comp)
-                if f is None or not _is_generator(f):
+            if isinstance(comp, (ast.Call, ast.Name)):
+                if _generator_target(repo, view, comp, objects) is None:
                     return None
                 x = fresh()
                 gen = ast.comprehension(target=ast.Name(id=x, ctx=ast.Store()), iter=comp, ifs=[], is_async=0)
@@ -1059,10 +1493,9 @@ def _generator_comprehensions_to_loops(repo: Repo, view: FuncInfo) -> bool:
             kind = "set"
         elif isinstance(e, (ast.ListComp, ast.GeneratorExp)):
             kind = "list"
-        if kind is None or not comp.generators or any(g_.is_async for g_ in comp.generators) or not isinstance(comp.generators[0].iter, ast.Call):
+        if kind is None or not comp.generators or any(g_.is_async for g_ in comp.generators):
             return None
-        f = _helper_of(repo, view, comp.generators[0].iter)
-        if f is None or not _is_generator(f):
+        if _generator_target(repo, view, comp.generators[0].iter, objects) is None:
             return None
         return kind, list(comp.generators), comp.elt, wrapper
 
@@ -1258,14 +1691,18 @@ def search_view(repo: Repo, fi: FuncInfo) -> FuncInfo:
         return cache[fi.fq]
     v0 = Inliner(repo, types_of(repo), _allow).view(_unqualified(repo, fi))
     inlined = list(getattr(v0, "inlined", []))
-    for _ in range(3):
+    objects_seen: dict = {}
+    for _ in range(4):
         # helper calls the inliner could not reach (nested in an expression, generator helpers in a for header): make them
         # reachable and substitute once more
+        v0.__dict__["objects"] = objects_seen
         changed = _hoist_helper_calls(repo, v0)
+        changed = _inline_object_methods(repo, v0) or changed
         changed = _recursion_to_worklists(repo, v0) or changed
         changed = _generator_comprehensions_to_loops(repo, v0) or changed
         changed = _inline_generator_loops(repo, v0) or changed
         inlined += v0.__dict__.get("gen_inlined", [])
+        objects_seen = dict(v0.__dict__.get("objects") or {})
         if not changed:
             break
         ast.fix_missing_locations(v0.node)
@@ -1274,7 +1711,10 @@ def search_view(repo: Repo, fi: FuncInfo) -> FuncInfo:
         inlined += list(getattr(v1, "inlined", []))
         v0 = v1
     node = v0.node
+    v0.__dict__["objects"] = objects_seen
+    _scalarise_objects(v0)
     _fold_constants(node)
+    _unpack_records(repo, v0)
     _positionalise(node, repo)
     node.body = _split_tuple_assigns(node.body)
     _project_tuples(node)
@@ -1447,6 +1887,8 @@ def make_subst(repo: Repo, v: FuncInfo):
         .intersection, `{*A, *B}`), also through a local bound once to such an expression whose operands are complete by then.
         None when the expression is a plain set (the membership stays an atom)."""
         se = strip(se)
+        if isinstance(se, ast.Name) and se.id in single and se.id not in params and _is_empty_collection(single[se.id]) and len(mutated_at.get(se.id, [])) <= 1:
+            return FALSE_F  # bound once to an empty collection and never filled (`barred = frozenset()`): nothing is in it
         if isinstance(se, ast.Name) and se.id in unions and depth < 4:
             # `U = set(A)` .. `U.update(B)` .. `U |= C` (all before U is read): U is A | B | C
             parts_ = [member(left, x, depth + 1, False) for x in unions[se.id]]
@@ -1730,15 +2172,17 @@ def _node_expr_text(e: ast.AST, single: dict[str, ast.expr]) -> str:
 def _worklist_sources(fn: ast.AST, worklist_expr: ast.AST, outer: ast.AST, single: dict[str, ast.expr]) -> tuple[list[str], list[ast.stmt]]:
     """Names of the sets / node expressions a worklist is initialised from, and the initialising statements."""
 
-    def sources_of(e: ast.AST) -> list[str]:
+    def sources_of(e: ast.AST, depth: int = 0) -> list[str]:
         e = strip(e)
         if isinstance(e, (ast.List, ast.Tuple, ast.Set)):
             out: list[str] = []
             for x in e.elts:
-                out += sources_of(x.value) if isinstance(x, ast.Starred) else [_node_expr_text(x, single)]
+                out += sources_of(x.value, depth) if isinstance(x, ast.Starred) else [_node_expr_text(x, single)]
             return out
         if isinstance(e, ast.Call) and isinstance(e.func, ast.Name) and e.func.id == "deque" and e.args:
             return sources_of(e.args[0])
+        if isinstance(e, ast.Name) and e.id in single and isinstance(strip(single[e.id]), (ast.List, ast.Tuple, ast.Set)) and depth < 3:
+            return sources_of(single[e.id], depth + 1)  # `start_nodes = [node]` .. `W = list(start_nodes)`
         return [norm(e)]
 
     base = strip(worklist_expr)
@@ -2462,7 +2906,7 @@ def _is_empty_collection(e: ast.AST) -> bool:
     e = strip(e)
     if isinstance(e, (ast.List, ast.Tuple)) and not e.elts:
         return True
-    return isinstance(e, ast.Call) and isinstance(e.func, ast.Name) and e.func.id in ("set", "list") and not e.args and not e.keywords
+    return isinstance(e, ast.Call) and isinstance(e.func, ast.Name) and e.func.id in ("set", "list", "frozenset", "tuple") and not e.args and not e.keywords
 
 
 def _loop_built_parent_ids(m: SearchModel, sites: list, single: dict[str, ast.expr]) -> None:
@@ -2980,9 +3424,11 @@ def first_iteration_lookup(m: SearchModel, p: str) -> tuple[bool, str]:
     val = strip(init.value)
     if isinstance(val, ast.Call) and isinstance(val.func, ast.Name) and val.func.id == "deque" and val.args:
         val = strip(val.args[0])
+    single = _single_assignments(v.node)
+    if isinstance(val, ast.Name) and val.id in single and val.id not in v.param_names and isinstance(strip(single[val.id]), (ast.List, ast.Tuple)) and cfg.dominates(stmt_of(single[val.id]), init) and len(_mutation_positions(v.node).get(val.id, [])) <= 1:
+        val = strip(single[val.id])  # `start_nodes = [node]` .. `W = list(start_nodes)`
     if not (isinstance(val, (ast.List, ast.Tuple)) and val.elts and not any(isinstance(x, ast.Starred) for x in val.elts)):
         return False, f"the worklist starts as `{norm(init.value)}`, not as a non-empty literal list"
-    single = _single_assignments(v.node)
     if node_text not in [_node_expr_text(x, single) for x in val.elts]:
         return False, f"the node of `{p}` is not in the initial worklist `{norm(init.value)}`"
     if not cfg.dominates(init, m.loop):
